@@ -177,19 +177,19 @@ def ground_truth(h):
                         return None      # assigning through a property / a builtin descriptor: not a hierarchy we ask about
     gt = {'mro': mro, 'class_def': {}, 'inst_sites': {}, 'class_names': set(), 'inst_names': set(inst.__dict__)}
     for attr in (h.ax, 'y'):
-        for i in mro:
-            if attr in vars(ns['C%d' % i]):
-                gt['class_def'][attr] = i
+        # the FULL method resolution order decides: a builtin base (dict) may stand in front of a source class that defines
+        # the attribute too - class C2(C1, C0) with C1(dict): C2, C1, dict, C0, object
+        for c in K.__mro__:
+            if attr in vars(c):
+                if c in src:
+                    gt['class_def'][attr] = src[c]
                 break
         gt['inst_sites'][attr] = [h.sites[(i, attr)][1] for i in mro if (i, attr) in h.sites and h.sites[(i, attr)][0] == 'inst']
     for i in mro:
         gt['class_names'] |= {n for n in vars(ns['C%d' % i]) if not n.startswith('__') or n == '__init__'}
     def first_kind(attr):
-        for i in mro:
-            k = h.classes[i][1 if attr == h.ax else 2]
-            if k != 'none' and attr in vars(ns['C%d' % i]):
-                return k
-        return None
+        i = gt['class_def'].get(attr)
+        return None if i is None else h.classes[i][1 if attr == h.ax else 2]
     gt['data_descriptor'] = {attr: first_kind(attr) == 'property-setter' for attr in (h.ax, 'y')}
     gt['has_property'] = {attr: any(h.classes[i][1 if attr == h.ax else 2] == 'property' for i in mro) for attr in (h.ax, 'y')}
     return gt
@@ -367,7 +367,7 @@ def plan(tier):
         return [(1, KINDS_X2, KINDS_Y, 1), (2, KINDS_X2, KINDS_Y, 2), (3, KINDS_X, ('none',), 2),
                 # four classes: where a definition sits in a two-level, two-base hierarchy (MRO order)
                 (4, ('none', 'classvar'), ('none',), 2, ('object',))]
-    return [(1, KINDS_X2, KINDS_Y, 1), (2, KINDS_X2, KINDS_Y, 2), (3, KINDS_X, KINDS_Y, 2), (4, ('none', 'classvar', 'method', 'method-assign'), ('none',), 2),
+    return [(1, KINDS_X2, KINDS_Y, 1), (2, KINDS_X2, KINDS_Y, 2), (3, KINDS_X, ('none', 'classvar'), 2), (4, ('none', 'classvar', 'method', 'method-assign'), ('none',), 2),
             (5, ('none', 'classvar'), ('none',), 2, ())]
 
 
@@ -385,15 +385,16 @@ def enum(tier):
             for classes in hierarchies(*entry):
                 out.append((classes, 'x'))
                 # the same hierarchy with the attribute named like one its builtin base has (an override of dict.keys ...)
-                if len(classes) <= (2 if tier == 'quick' else 3):
+                if len(classes) <= 2:
                     blt = {b for c in classes for b in c[0] if not isinstance(b, int)}
                     if len(blt) == 1 and any(c[1] != 'none' for c in classes):
                         out.append((classes, SHADOWING[blt.pop()]))
-        if tier == 'quick':
-            # three classes with `object` spelled out: a mixin further right overriding what every class inherits from object
-            for classes in hierarchies(3, ('none', 'method'), ('none',), 2, ('object',)):
-                if any('object' in c[0] for c in classes) and any(c[1] != 'none' for c in classes):
-                    out.append((classes, '__eq__'))
+        # three classes with a builtin base spelled out: a class further right overriding what the builtin base provides
+        # (object: the mixin wins, object is last in the MRO; dict: dict.keys wins over a class right of the dict subclass)
+        for blt in ('object', 'dict') if tier != 'quick' else ('object',):
+            for classes in hierarchies(3, ('none', 'method') if tier == 'quick' else ('none', 'method', 'classvar', 'method-assign'), ('none',), 2, (blt,)):
+                if any(blt in c[0] for c in classes) and any(c[1] != 'none' for c in classes):
+                    out.append((classes, SHADOWING[blt]))
         _ENUM[tier] = out
     return _ENUM[tier]
 
